@@ -130,7 +130,7 @@ def run(ctx):
     drv = [vlib.driver_path(), 'ST']
     thorough = ctx.tier == 'thorough'
     n = 1500 if thorough else 150
-    nontriv = lambda c: sum(1 for l in c if l.split()[0] in ('insf', 'ins', 'rmmax', 'prunef', 'pruned', 'batch')) >= 3 and not stref.simulate(c)[-3].startswith('n 0 ')
+    nontriv = lambda c: sum(1 for l in c if l.split()[0] in ('insf', 'ins', 'rmmax', 'prunef', 'pruned', 'batch')) >= 3 and not ([l for l in stref.simulate(c) if l and l.startswith('n ')] or ['n 0 '])[-1].startswith('n 0 ')
     for k, name in OPTS.items():
         cases = [gen_case(ctx.rng, contig=k in CONTIG, zero=k in ZERO, maxlen=30 if thorough else 14) for _ in range(n)]
         vlib.correspondence(ctx, name, [exes['hST%d' % k]], drv, cases, nontrivial=nontriv, keep_prefix=2 if k in CONTIG else 1, oracle=stref.oracle, valid=stref.valid_contig if k in CONTIG else stref.valid)
